@@ -209,6 +209,10 @@ fixed("F80", "C18", "f6bed1a", "C18.verbatim|replace|rewrite_infallible_generate
 add("F81", ["C16", "C10"], "C16.invented-names|binder|__lambda_arg_{}", "`3.0 ||> mix(_, twice!(inc(_))(1.0))` gives 34.0 on both back ends where the same program with the inner partial application written by hand (`twice!(|inner| `{ inc($inner) })`) gives 33.0: the parameter of a `_` lambda is named after the argument position (`__lambda_arg_1` for both holes here) and the inlining of `||>` substitutes by name, so the piped 3.0 also fills the hole of the inner lambda (findings/repro/F81_placeholder_capture.mmm). Not repaired: the spelling is pinned by the unit test convert_pronoun::test::test_placeholder_converts_to_macro_lambda")
 
 
+# ---- F82 (the type-kinds rule, written for a seeded change, reported it on the unchanged tree)
+fixed("F82", "C14", "55c8369", "C14.dispatch|type-kinds|print_lambda_expr", "`let f = |x:float|->float|int x`: the lambda printer's list of node kinds that count as a return type lacked UnionType (the lowering accepts nine kinds of type); the formatter printed `|x:float|-> float|intx`, gluing the body to the last member of the union (findings/repro/F82_lambda_union_return_type.mmm)")
+
+
 def main():
     extra = os.path.join(HERE, "tools", "findings_more.py")
     if os.path.exists(extra):
